@@ -10,10 +10,16 @@
  * Journal feature word fully symbolic (so tag size 8/10/12/16, csum tail or
  * not, 32/64-bit revoke records are all covered in one query).
  *
+ * OUTSIDE: count_tags() advances tagp by tag_bytes (+16 without SAME_UUID) BEFORE re-testing the loop bound, so it
+ * forms and compares a pointer up to 24+ bytes past the end of the heap block (never dereferenced). CBMC reports that
+ * as "pointer arithmetic/relation: pointer outside object bounds" = UB-REPORT; executions that continue after such a
+ * formation are not examined further by CBMC (only the loop exit and return follow there).
+ *
  * OP 1: count_tags          post: 0 <= nr <= (JBS-12)/tag_bytes_min + 1
  * OP 2: scan_revoke_records post: every record handed to the revoke table was read
  *                                 from inside [16, r_count) and r_count <= JBS
  */
+#define E2FSCK_INCLUDE_INLINE_FUNCS	/* this unit emits the C99 inline helpers of jfs_user.h / kernel-jbd.h (native replay links at -O0) */
 #include "e2fsck/recovery.c"
 #include <stddef.h>
 
@@ -74,6 +80,13 @@ int main(void)
 	PROP(vf_nrevoke == info.nr_revokes, "every revoke record counted once");
 	PROP(vf_nrevoke <= (JBS - 16) / 4, "no more revoke records than fit in the block");
 	PROP(n == 0 || vf_nrevoke == 0, "oversized r_count rejected before any record is used");
+	{	/* reference from the jbd2 format: r_count = bytes used in the block including the 16-byte header;
+		 * records are 8 bytes with INCOMPAT_64BIT (0x2, big-endian feature word, superblock v2), else 4 */
+		unsigned int rc_ = ((unsigned) IN.blk[12] << 24) | (IN.blk[13] << 16) | (IN.blk[14] << 8) | IN.blk[15];
+		unsigned int rl_ = (IN.format_version >= 2 && (IN.feature_incompat & 0x02000000u)) ? 8 : 4;
+		if (n == 0)
+			PROP(vf_nrevoke == (rc_ >= 16 ? (int) ((rc_ - 16) / rl_) : 0), "exactly the records inside r_count are used");
+	}
 #endif
 	VF_END();
 	return 0;
